@@ -741,6 +741,25 @@ def loglikelihood(ctx, cls, branch, n):
             ctx.ensure("likelihood=exp(loglikelihood)", ctx.eq(_quiet(norm.likelihood, arr(ctx, xs)), ctx.m.exp(ll)))
 
 
+@contract(P, "Normalizer.loglikelihood[missing-values]/likelihood-of-the-valid-data",
+          params=[dict(p, where=w) for p in CB for w in ("middle", "last")],
+          functions=["normalizer/base.py:Normalizer.loglikelihood", "normalizer/base.py:Normalizer.kernel_loglikelihood",
+                     "normalizer/base.py:Normalizer._check_input"],
+          bounded="2 valid data points and one NaN", timeout=90)
+def loglikelihood_nan(ctx, cls, branch, where):
+    """NaN entries are no data ('NaN ... inputs give NaN' for the transforms; the likelihood is that of the
+    remaining values): the sample size in the maximum-likelihood definition is the number of VALID values"""
+    norm, par = make(ctx, cls, branch, exact=True)
+    xs = _data(ctx, cls, par, 2)
+    data = [xs[0], float("nan"), xs[1]] if where == "middle" else [xs[0], xs[1], float("nan")]
+    with np.errstate(all="ignore"):
+        ll = _quiet(norm.loglikelihood, arr(ctx, data))
+        kll = _quiet(norm.kernel_loglikelihood, arr(ctx, data))
+    ctx.ensure("loglikelihood(data-with-NaN)=loglikelihood(valid-data)", ctx.eq(ll, spec_ll(ctx, cls, par, xs)))
+    ctx.ensure("kernel_loglikelihood(data-with-NaN)=kernel_loglikelihood(valid-data)",
+               ctx.eq(kll, spec_kernel_ll(ctx, cls, par, xs)))
+
+
 class _FakeOpt:
     """stands in for scipy.optimize inside normalizer.base while `fit` runs: records the
     objective handed to the optimiser and returns a havoc'd optimum"""
